@@ -307,8 +307,9 @@ BUILDER = {
     },
     "C04": {
         "invariants": ["Inv_C04"],
-        "exh": {"quick": [("C04_Docs", 2, 2, "C04_Range"), ("C04_DocsL", 2, 3, "C04_RangeL")],
-                "thorough": [("C04_Docs", 2, 2, "C04_Range"), ("C04_DocsL", 2, 3, "C04_RangeL"), ("C04_Docs3", 3, 3, "C04_Range3")]},
+        "exh": {"quick": [("C04_Docs", 2, 2, "C04_Range"), ("C04_DocsL", 2, 3, "C04_RangeL"), ("C04_DocsP", 3, 3, "C04_RangeP"), ("C04_DocsK", 2, 2, "C04_RangeK")],
+                "thorough": [("C04_Docs", 2, 2, "C04_Range"), ("C04_DocsL", 2, 3, "C04_RangeL"), ("C04_Docs3", 3, 3, "C04_Range3"),
+                             ("C04_DocsP", 3, 3, "C04_RangeP"), ("C04_DocsK", 2, 2, "C04_RangeK")]},
         "mutations": [{"switch": "AbsLookup", "docs": "C04_Docs3", "range": "C04_Range3", "stages": (2, 2), "expect": ["Inv_C04"]},
                       {"switch": "FnTruthyWhenEmpty", "docs": "C04_Docs", "range": "C04_Range", "stages": (2, 2), "expect": ["Inv_C04"]},
                       {"mutation": "PruneEqualPriority", "docs": "C04_Docs3", "range": "C04_Range3", "stages": (2, 2), "expect": ["Inv_C04"]},
@@ -384,8 +385,8 @@ BUILDER = {
     "C15": {
         "invariants": ["Inv_C15"],
         "rel": "c15",
-        "exh": {"quick": [("C15_Docs3", 2, 2)],
-                "thorough": [("C15_Docs3", 2, 3), ("C15_Docs", 2, 2, "C15_Range")]},
+        "exh": {"quick": [("C15_Docs3", 2, 2), ("C15_DocsDeep", 2, 2, "C15_RangeDeep")],
+                "thorough": [("C15_Docs3", 2, 3), ("C15_Docs", 2, 2, "C15_Range"), ("C15_DocsDeep", 2, 2, "C15_RangeDeep")]},
         "mutations": [{"switch": "DeepWrapRefills", "docs": "C15_DocsM", "stages": (2, 2), "expect": ["Inv_C15"]},
                       {"mutation": "PruneAlways", "docs": "C15_Docs3", "stages": (2, 2), "expect": ["Inv_C15"]}],
         "gen": _gen_c15, "random": {"quick": 400, "thorough": 8000}, "max_stages": 4,
